@@ -140,6 +140,32 @@ CLAIMED = {
              "model. Known findings K_fullrow_lf, K_zw_after_lf (recorded, classes excluded); F17 repaired.",
         note=TTY_NOTE + "Real terminals are represented by the emulator's stated assumptions.",
         technique="Coq proof: simulation between the terminal specification and calc_go by induction over the text; clear / print / reposition phases of refresh_line by induction over rows; extracted-model differential check of every byte written + independent VT emulator oracle"),
+    "C19": dict(
+        text="Theorems over (a) a transition-system model of the ExternalPrinter protocol (writer mutex, channel of capacity 1, "
+             "wake-up pipe, one byte per wake-up) for ANY number of printer threads and EVERY interleaving: per thread, messages "
+             "shown ++ message in the channel ++ messages still to print is always exactly the thread's program (nothing lost, "
+             "shown twice or reordered; all shown once the thread is done), the pipe holds a byte exactly when an announced message "
+             "is in the channel (no spurious wake-up), some step is always enabled while anything is left to print, and a message in "
+             "the channel is shown by the editor's next step or announced by its sender's next step; (b) the editor model: showing a "
+             "message leaves text, cursor, undo stack and history untouched and writes the message whole, after clearing the old "
+             "rows, followed by a full redraw. PARTIAL: the protocol model is tied to the code by the oracle on real runs only "
+             "(sampled schedules); the redraw bytes are compared with the implementation byte for byte.",
+        note=TTY_NOTE + "Thread schedules below the protocol steps, and racing with the start/end of a read, are sampled.",
+        technique="Coq proof: invariant over an inductively defined step relation (all interleavings), progress by case analysis; editor-side by the keeps-calculus; extracted-model differential check of the message redraw through a pty + exactly-once/order oracle with an independent emulator"),
+    "C20": dict(
+        text="PARTIAL (row bookkeeping proved, search clause tested). Theorems over a model of sqlite_history.rs (history table as "
+             "rows in rowid order, cached maximal rowid, session, INSERT OR REPLACE under the unique index): for every sequence "
+             "of adds, gets, limit changes and reopens the rowids stay strictly increasing along the table, which is the order of "
+             "(last) entry; an accepted line becomes the newest row and a copy entered in the same session disappears; add "
+             "refuses exactly the empty line, a zero limit and a leading blank under ignore-space; walking from the newest row "
+             "down (largest rowid at or below the index) and back up visits every row exactly once, in order, whatever gaps the "
+             "rowids have. The model is compared with the bundled SQLite on every answer, and the interactive editor is run over "
+             "a real SQLiteHistory on a pty (two sessions, Up/Down walks and returned line against a reference walk). The search "
+             "clause (returns nothing or an entry that really contains / starts with the text, never an error) has no theorem: "
+             "it is an oracle on the implementation for single alphanumeric words; known finding K4 (other search texts; prefix "
+             "hits on entries with a leading separator); F18 (stale full-text index after a replaced duplicate) repaired.",
+        note=COMMON_NOTE + "SQLite (storage, rowids, FTS4) is trusted/observed, not modelled; durability is SQLite's.",
+        technique="Coq proof: invariant by induction over op sequences (StronglySorted rowids), induction over the row list for the walks; extracted-model differential check against the bundled SQLite on temporary databases + search oracle + editor walks over SQLiteHistory through a pty"),
     "C13": dict(
         text="Theorems for every validator, editor state and text: executing Enter / C-j / C-m says Submit only if the verdict on "
              "the current text is Valid, and then text and cursor are exactly those validated; a Valid verdict does submit; "
@@ -250,6 +276,8 @@ def main():
         "notes": "See DESIGN.md. Repairs made to /repo are listed in known_findings.json (status fixed).",
         "not_applicable": [],
     }
+    missing = [p["id"] for p in props if p["id"] not in CLAIMED]
+    assert not missing, "every property has a registered check; entries lost for %s" % missing
     for p in props:
         i = p["id"]
         if i in CLAIMED:
